@@ -1,24 +1,253 @@
-import Proofs.RealInst
-import TaurexModel.Interp
+/-
+  C04 — opacity interpolation in (T, P) is sound everywhere.
+  Theorems about `Taurex.Interp` (the definitions the driver `driver_c04` executes on `Float`),
+  instantiated at ℝ.  Grids are strictly increasing with at least two nodes (what every loader produces);
+  `pg`/`p` are log10 pressures (see `computeOpacity_eq` for the Pa form).
+-/
+import Proofs.C04Lemmas
 
 namespace Taurex.C04
-open Taurex.Interp
+open Taurex.Interp Taurex.C04L
 
-/-- linear interpolation stays between its two nodes -/
-theorem interpLin_between (x11 x12 p pmin pmax : ℝ) (h : pmin < pmax) (h1 : pmin ≤ p) (h2 : p ≤ pmax) :
-    min x11 x12 ≤ interpLin x11 x12 p pmin pmax ∧ interpLin x11 x12 p pmin pmax ≤ max x11 x12 := by
-  unfold interpLin
-  have hd : 0 < pmax - pmin := by linarith
-  set s := (p - pmin) / (pmax - pmin) with hs
-  have hs0 : 0 ≤ s := div_nonneg (by linarith) hd.le
-  have hs1 : s ≤ 1 := by rw [hs, div_le_one hd]; linarith
-  have e : x11 - s * (x11 - x12) = (1 - s) * x11 + s * x12 := by ring
-  rw [e]
-  constructor
-  · have := min_le_left x11 x12; have := min_le_right x11 x12
-    nlinarith [mul_nonneg hs0 (sub_nonneg.2 (min_le_right x11 x12)),
-               mul_nonneg (sub_nonneg.2 hs1) (sub_nonneg.2 (min_le_left x11 x12))]
-  · nlinarith [mul_nonneg hs0 (sub_nonneg.2 (le_max_right x11 x12)),
-               mul_nonneg (sub_nonneg.2 hs1) (sub_nonneg.2 (le_max_left x11 x12))]
+/-- bracketing node indices along one axis: the nearest edge node outside the grid, else the two
+    neighbours returned by `find_closest_pair` (which bracket the value, `pair_brackets`) -/
+noncomputable def bracketIdx (g : List ℝ) (v : ℝ) : Nat × Nat :=
+  if v < g.getD 0 0 then (0, 0)
+  else if g.getD (g.length - 1) 0 ≤ v then (g.length - 1, g.length - 1)
+  else findClosestPair g v
+
+def nodeMin (tab : List (List ℝ)) (pi ti : Nat × Nat) : ℝ :=
+  min (min (at2 tab pi.1 ti.1) (at2 tab pi.1 ti.2)) (min (at2 tab pi.2 ti.1) (at2 tab pi.2 ti.2))
+
+def nodeMax (tab : List (List ℝ)) (pi ti : Nat × Nat) : ℝ :=
+  max (max (at2 tab pi.1 ti.1) (at2 tab pi.1 ti.2)) (max (at2 tab pi.2 ti.1) (at2 tab pi.2 ti.2))
+
+/-- `find_closest_pair` returns adjacent in-range indices which, inside the grid, bracket the value. -/
+theorem pair_brackets (g : List ℝ) (h : Sorted g) (v : ℝ) (hn : 2 ≤ g.length)
+    (hlo : g.getD 0 0 ≤ v) (hhi : v ≤ g.getD (g.length - 1) 0) :
+    (findClosestPair g v).2 = (findClosestPair g v).1 + 1 ∧ (findClosestPair g v).2 < g.length ∧
+    g.getD (findClosestPair g v).1 0 ≤ v ∧ v ≤ g.getD (findClosestPair g v).2 0 :=
+  ⟨(pair_adjacent g v hn).1, (pair_adjacent g v hn).2, (C04L.pair_brackets g h v hn hlo hhi).1,
+   (C04L.pair_brackets g h v hn hlo hhi).2⟩
+
+example : Sorted [1, 2, 4] ∧ (2 : ℕ) ≤ [(1:ℝ), 2, 4].length ∧ ([(1:ℝ), 2, 4].getD 0 0 ≤ 3) := by
+  refine ⟨?_, by simp, by norm_num⟩
+  simp [Sorted]; norm_num
+
+/-- inside the grid the pair returned by `find_closest_pair` is a proper bracket -/
+theorem bracket_facts (g : List ℝ) (h : Sorted g) (v : ℝ) (hn : 2 ≤ g.length)
+    (hlo : ¬ v < g.getD 0 0) (hhi : ¬ g.getD (g.length - 1) 0 ≤ v) :
+    g.getD (findClosestPair g v).1 0 < g.getD (findClosestPair g v).2 0 ∧
+    g.getD (findClosestPair g v).1 0 ≤ v ∧ v ≤ g.getD (findClosestPair g v).2 0 := by
+  obtain ⟨a, b⟩ := pair_adjacent g v hn
+  obtain ⟨c, d⟩ := C04L.pair_brackets g h v hn (not_lt.1 hlo) (not_le.1 hhi).le
+  exact ⟨sorted_getD_lt h (by omega) b, c, d⟩
+
+/-- **between_nodes (linear mode)**: for every `(T, P)` other than the documented both-below corner the value
+    lies between the smallest and largest tabulated values at the bracketing nodes (nearest edge nodes
+    outside the grid): never extrapolated. -/
+theorem between_nodes_linear (tg pg : List ℝ) (tab : List (List ℝ)) (t p : ℝ)
+    (hT : Sorted tg) (hP : Sorted pg) (hnT : 2 ≤ tg.length) (hnP : 2 ≤ pg.length)
+    (hnb : ¬ (t < tg.getD 0 0 ∧ p < pg.getD 0 0)) :
+    nodeMin tab (bracketIdx pg p) (bracketIdx tg t) ≤ bilinearGrid .linear tg pg tab t p ∧
+    bilinearGrid .linear tg pg tab t p ≤ nodeMax tab (bracketIdx pg p) (bracketIdx tg t) := by
+  have hT0 : tg.getD 0 0 < tg.getD (tg.length - 1) 0 := sorted_getD_lt hT (by omega) (by omega)
+  have hP0 : pg.getD 0 0 < pg.getD (pg.length - 1) 0 := sorted_getD_lt hP (by omega) (by omega)
+  by_cases hpmax : pg.getD (pg.length - 1) 0 ≤ p <;> by_cases htmax : tg.getD (tg.length - 1) 0 ≤ t <;>
+  by_cases hpmin : p < pg.getD 0 0 <;> by_cases htmin : t < tg.getD 0 0
+  all_goals first | (exfalso; linarith) | (exfalso; exact hnb ⟨htmin, hpmin⟩) | skip
+  all_goals simp only [bilinearGrid, bracketIdx, nodeMin, nodeMax, hpmax, htmax, hpmin, htmin, decide_true,
+    decide_false, Bool.and_true, Bool.and_false, if_true, if_false,
+    Bool.false_eq_true, min_self, max_self, le_refl, and_self]
+  · -- P ≥ max, T inside: temperature-only interpolation on the last pressure row
+    obtain ⟨a, b, c⟩ := bracket_facts tg hT t hnT htmin htmax
+    exact interpLin_between _ _ t _ _ a b c
+  · -- T ≥ max, P inside
+    obtain ⟨a, b, c⟩ := bracket_facts pg hP p hnP hpmin hpmax
+    exact interpLin_between _ _ p _ _ a b c
+  · -- P < min, T inside
+    obtain ⟨a, b, c⟩ := bracket_facts tg hT t hnT htmin htmax
+    exact interpLin_between _ _ t _ _ a b c
+  · -- T < min, P inside
+    obtain ⟨a, b, c⟩ := bracket_facts pg hP p hnP hpmin hpmax
+    exact interpLin_between _ _ p _ _ a b c
+  · -- interior: bilinear
+    obtain ⟨a, b, c⟩ := bracket_facts tg hT t hnT htmin htmax
+    obtain ⟨a', b', c'⟩ := bracket_facts pg hP p hnP hpmin hpmax
+    exact interpBilin_between _ _ _ _ t _ _ p _ _ a b c a' b' c'
+
+/-- all tabulated values at the four bracketing nodes are positive (what exp mode needs: it takes logarithms) -/
+def TabPos (tab : List (List ℝ)) : Prop := ∀ i j, 0 < at2 tab i j
+
+/-- **between_nodes (exp mode)**: same bound for the exponential-in-1/T, linear-in-log P form, for positive
+    tables and positive grid temperatures. -/
+theorem between_nodes_exp (tg pg : List ℝ) (tab : List (List ℝ)) (t p : ℝ)
+    (hT : Sorted tg) (hP : Sorted pg) (hnT : 2 ≤ tg.length) (hnP : 2 ≤ pg.length)
+    (hpos : TabPos tab) (hT0pos : 0 < tg.getD 0 0)
+    (hnb : ¬ (t < tg.getD 0 0 ∧ p < pg.getD 0 0)) :
+    nodeMin tab (bracketIdx pg p) (bracketIdx tg t) ≤ bilinearGrid .exp tg pg tab t p ∧
+    bilinearGrid .exp tg pg tab t p ≤ nodeMax tab (bracketIdx pg p) (bracketIdx tg t) := by
+  have hT0 : tg.getD 0 0 < tg.getD (tg.length - 1) 0 := sorted_getD_lt hT (by omega) (by omega)
+  have hP0 : pg.getD 0 0 < pg.getD (pg.length - 1) 0 := sorted_getD_lt hP (by omega) (by omega)
+  have hTl : 0 < tg.getD (findClosestPair tg t).1 0 :=
+    lt_of_lt_of_le hT0pos (sorted_getD_le hT (Nat.zero_le _) (by have := pair_adjacent tg t hnT; omega))
+  by_cases hpmax : pg.getD (pg.length - 1) 0 ≤ p <;> by_cases htmax : tg.getD (tg.length - 1) 0 ≤ t <;>
+  by_cases hpmin : p < pg.getD 0 0 <;> by_cases htmin : t < tg.getD 0 0
+  all_goals first | (exfalso; linarith) | (exfalso; exact hnb ⟨htmin, hpmin⟩) | skip
+  all_goals simp only [bilinearGrid, bracketIdx, nodeMin, nodeMax, hpmax, htmax, hpmin, htmin, decide_true,
+    decide_false, Bool.and_true, Bool.and_false, if_true, if_false,
+    Bool.false_eq_true, min_self, max_self, le_refl, and_self]
+  · obtain ⟨a, b, c⟩ := bracket_facts tg hT t hnT htmin htmax
+    exact interpExp_between _ _ t _ _ (hpos _ _) (hpos _ _) hTl a b c
+  · obtain ⟨a, b, c⟩ := bracket_facts pg hP p hnP hpmin hpmax
+    exact interpLin_between _ _ p _ _ a b c
+  · obtain ⟨a, b, c⟩ := bracket_facts tg hT t hnT htmin htmax
+    exact interpExp_between _ _ t _ _ (hpos _ _) (hpos _ _) hTl a b c
+  · obtain ⟨a, b, c⟩ := bracket_facts pg hP p hnP hpmin hpmax
+    exact interpLin_between _ _ p _ _ a b c
+  · obtain ⟨a, b, c⟩ := bracket_facts tg hT t hnT htmin htmax
+    obtain ⟨a', b', c'⟩ := bracket_facts pg hP p hnP hpmin hpmax
+    exact interpExpLin_between _ _ _ _ t _ _ p _ _ (hpos _ _) (hpos _ _) (hpos _ _) (hpos _ _) hTl a b c a' b' c'
+
+/-- the documented exception: below both the minimum temperature and the minimum pressure the value is zero
+    (both modes) -/
+theorem both_min_zero (mode : Mode) (tg pg : List ℝ) (tab : List (List ℝ)) (t p : ℝ)
+    (hT : Sorted tg) (hP : Sorted pg) (hnT : 2 ≤ tg.length) (hnP : 2 ≤ pg.length)
+    (ht : t < tg.getD 0 0) (hp : p < pg.getD 0 0) : bilinearGrid mode tg pg tab t p = 0 := by
+  have hT0 : tg.getD 0 0 < tg.getD (tg.length - 1) 0 := sorted_getD_lt hT (by omega) (by omega)
+  have hP0 : pg.getD 0 0 < pg.getD (pg.length - 1) 0 := sorted_getD_lt hP (by omega) (by omega)
+  have h1 : ¬ pg.getD (pg.length - 1) 0 ≤ p := by linarith
+  have h2 : ¬ tg.getD (tg.length - 1) 0 ≤ t := by linarith
+  simp only [bilinearGrid, h1, h2, ht, hp, decide_true, decide_false, if_true,
+    if_false, Bool.false_eq_true, Bool.and_self]
+
+/-- never negative: with a non-negative table the linear-mode result is non-negative for every `(T, P)` -/
+theorem nonneg_linear (tg pg : List ℝ) (tab : List (List ℝ)) (t p : ℝ)
+    (hT : Sorted tg) (hP : Sorted pg) (hnT : 2 ≤ tg.length) (hnP : 2 ≤ pg.length)
+    (h0 : ∀ i j, 0 ≤ at2 tab i j) : 0 ≤ bilinearGrid .linear tg pg tab t p := by
+  by_cases hb : t < tg.getD 0 0 ∧ p < pg.getD 0 0
+  · rw [both_min_zero _ tg pg tab t p hT hP hnT hnP hb.1 hb.2]
+  · refine le_trans ?_ (between_nodes_linear tg pg tab t p hT hP hnT hnP hb).1
+    unfold nodeMin
+    exact le_min (le_min (h0 _ _) (h0 _ _)) (le_min (h0 _ _) (h0 _ _))
+
+/-- never negative in exp mode (positive table) -/
+theorem nonneg_exp (tg pg : List ℝ) (tab : List (List ℝ)) (t p : ℝ)
+    (hT : Sorted tg) (hP : Sorted pg) (hnT : 2 ≤ tg.length) (hnP : 2 ≤ pg.length)
+    (hpos : TabPos tab) (hT0pos : 0 < tg.getD 0 0) : 0 ≤ bilinearGrid .exp tg pg tab t p := by
+  by_cases hb : t < tg.getD 0 0 ∧ p < pg.getD 0 0
+  · rw [both_min_zero _ tg pg tab t p hT hP hnT hnP hb.1 hb.2]
+  · refine le_trans ?_ (between_nodes_exp tg pg tab t p hT hP hnT hnP hpos hT0pos hb).1
+    unfold nodeMin
+    exact le_min (le_min (hpos _ _).le (hpos _ _).le) (le_min (hpos _ _).le (hpos _ _).le)
+
+/-- `compute_opacity` is the dispatch on log10 pressures divided by 10000 (cm² → m²) … -/
+theorem computeOpacity_eq (mode : Mode) (tg pgPa : List ℝ) (tab : List (List ℝ)) (t pPa : ℝ) :
+    computeOpacity mode tg pgPa tab t pPa
+      = bilinearGrid mode tg (pgPa.map (fun x => Real.log x / Real.log 10)) tab t (Real.log pPa / Real.log 10) / 10000 :=
+  rfl
+
+/-- … and a strictly increasing positive pressure grid in Pa has a strictly increasing log10 grid, so the
+    theorems above apply to the grid as stored. -/
+theorem sorted_log10 (pgPa : List ℝ) (h : Sorted pgPa) (hpos : ∀ x ∈ pgPa, 0 < x) :
+    Sorted (pgPa.map (fun x => Real.log x / Real.log 10)) := by
+  unfold Sorted at *
+  rw [List.pairwise_map]
+  refine List.Pairwise.imp_of_mem ?_ h
+  intro a b ha hb hab
+  have h10 : 0 < Real.log 10 := Real.log_pos (by norm_num)
+  exact div_lt_div_of_pos_right (Real.log_lt_log (hpos a ha) hab) h10
+
+/-- regression of defect F1 (fixed by /repo commit 4f71cd6): the pinned dispatch extrapolated in the mixed
+    corner `T < Tmin ∧ P ≥ Pmax` and returned a negative cross-section from a positive table. -/
+theorem pinned_mixed_corner_negative :
+    bilinearGridPinned .linear [(1:ℝ), 2] [0, 1] [[1, 3], [1, 3]] 0 2 < 0 ∧
+    bilinearGrid .linear [(1:ℝ), 2] [0, 1] [[1, 3], [1, 3]] 0 2 = 1 := by
+  constructor <;>
+  · simp [bilinearGridPinned, bilinearGrid, findClosestPair, searchLeft, interpTempOnly, interpLin, at2]
+    try norm_num
+
+-- non-vacuity: a 3×3 table, strictly increasing grids, a strictly interior point, and the hypotheses of
+-- `between_nodes_linear` / `between_nodes_exp` hold for it
+example : Sorted [(100:ℝ), 200, 400] ∧ Sorted [(0:ℝ), 1, 3] ∧
+    ¬ ((150:ℝ) < [(100:ℝ), 200, 400].getD 0 0 ∧ (2:ℝ) < [(0:ℝ), 1, 3].getD 0 0) := by
+  refine ⟨?_, ?_, ?_⟩
+  · norm_num [Sorted]
+  · norm_num [Sorted]
+  · norm_num
+
+/-! ### tabulated values are reproduced at every grid node -/
+
+/-- position of a node value relative to the pair returned for it -/
+theorem node_pair (g : List ℝ) (h : Sorted g) (j : Nat) (hn : 2 ≤ g.length) (hj : j < g.length - 1) :
+    ¬ g.getD (g.length - 1) 0 ≤ g.getD j 0 ∧ ¬ g.getD j 0 < g.getD 0 0 ∧
+    g.getD (findClosestPair g (g.getD j 0)).1 0 < g.getD (findClosestPair g (g.getD j 0)).2 0 ∧
+    ((findClosestPair g (g.getD j 0)).1 = j ∨ (findClosestPair g (g.getD j 0)).2 = j) := by
+  have hs := searchLeft_node g h j (by omega)
+  obtain ⟨a, b⟩ := pair_adjacent g (g.getD j 0) hn
+  refine ⟨not_le.2 (sorted_getD_lt h hj (by omega)), not_lt.2 (sorted_getD_le h (Nat.zero_le _) (by omega)),
+    sorted_getD_lt h (by omega) b, ?_⟩
+  unfold findClosestPair
+  simp only [hs]
+  omega
+
+theorem interpLin_at (x11 x12 v a b : ℝ) (hab : a < b) :
+    (v = a → interpLin x11 x12 v a b = x11) ∧ (v = b → interpLin x11 x12 v a b = x12) :=
+  ⟨fun e => by rw [e]; exact interpLin_left _ _ _ _, fun e => by rw [e]; exact interpLin_right _ _ _ _ hab⟩
+
+theorem interpExp_left (x11 x12 a b : ℝ) : interpExp x11 x12 a a b = x11 := by
+  unfold interpExp; simp
+
+theorem interpExp_right (x11 x12 a b : ℝ) (h1 : 0 < x11) (h2 : 0 < x12) (ha : 0 < a) (hab : a < b) :
+    interpExp x11 x12 b a b = x12 := by
+  unfold interpExp
+  simp only [exp_real, log_real]
+  have hb : b ≠ 0 := by linarith
+  have hd : b - a ≠ 0 := by linarith
+  have e : b * (-b + a) * Real.log (x11 / x12) / (b * (b - a)) = - Real.log (x11 / x12) := by
+    field_simp; ring
+  rw [e, Real.exp_neg, Real.exp_log (div_pos h1 h2)]
+  field_simp
+
+/-- **at_node (linear mode)**: at every grid node the tabulated value is returned. -/
+theorem at_node_linear (tg pg : List ℝ) (tab : List (List ℝ)) (i j : Nat)
+    (hT : Sorted tg) (hP : Sorted pg) (hnT : 2 ≤ tg.length) (hnP : 2 ≤ pg.length)
+    (hi : i < pg.length) (hj : j < tg.length) :
+    bilinearGrid .linear tg pg tab (tg.getD j 0) (pg.getD i 0) = at2 tab i j := by
+  by_cases hjl : j = tg.length - 1 <;> by_cases hil : i = pg.length - 1
+  · subst hjl; subst hil
+    simp only [bilinearGrid, le_refl, decide_true, Bool.and_self, if_true]
+  · subst hjl
+    obtain ⟨p1, p2, p3, p4⟩ := node_pair pg hP i hnP (by omega)
+    simp only [bilinearGrid, le_refl, p1, p2, decide_true, decide_false, Bool.and_true, Bool.false_and, if_true,
+      if_false, Bool.false_eq_true, interpPressOnly]
+    obtain ⟨l, r⟩ := interpLin_at (at2 tab (findClosestPair pg (pg.getD i 0)).1 (tg.length - 1))
+      (at2 tab (findClosestPair pg (pg.getD i 0)).2 (tg.length - 1)) (pg.getD i 0) _ _ p3
+    rcases p4 with e | e
+    · rw [l (by rw [e])]; rw [e]
+    · rw [r (by rw [e])]; rw [e]
+  · subst hil
+    obtain ⟨t1, t2, t3, t4⟩ := node_pair tg hT j hnT (by omega)
+    simp only [bilinearGrid, le_refl, t1, t2, decide_true, decide_false, Bool.and_false, if_true,
+      if_false, Bool.false_eq_true, interpTempOnly]
+    obtain ⟨l, r⟩ := interpLin_at (at2 tab (pg.length - 1) (findClosestPair tg (tg.getD j 0)).1)
+      (at2 tab (pg.length - 1) (findClosestPair tg (tg.getD j 0)).2) (tg.getD j 0) _ _ t3
+    rcases t4 with e | e
+    · rw [l (by rw [e])]; rw [e]
+    · rw [r (by rw [e])]; rw [e]
+  · obtain ⟨t1, t2, t3, t4⟩ := node_pair tg hT j hnT (by omega)
+    obtain ⟨p1, p2, p3, p4⟩ := node_pair pg hP i hnP (by omega)
+    simp only [bilinearGrid, t1, t2, p1, p2, decide_false, if_false,
+      Bool.false_eq_true, Bool.and_self]
+    rw [interpBilin_nested]
+    rcases t4 with e | e <;> rcases p4 with e' | e'
+    · rw [(interpLin_at _ _ _ _ _ t3).1 (by rw [e]), (interpLin_at _ _ _ _ _ t3).1 (by rw [e]),
+        (interpLin_at _ _ _ _ _ p3).1 (by rw [e']), e, e']
+    · rw [(interpLin_at _ _ _ _ _ t3).1 (by rw [e]), (interpLin_at _ _ _ _ _ t3).1 (by rw [e]),
+        (interpLin_at _ _ _ _ _ p3).2 (by rw [e']), e, e']
+    · rw [(interpLin_at _ _ _ _ _ t3).2 (by rw [e]), (interpLin_at _ _ _ _ _ t3).2 (by rw [e]),
+        (interpLin_at _ _ _ _ _ p3).1 (by rw [e']), e, e']
+    · rw [(interpLin_at _ _ _ _ _ t3).2 (by rw [e]), (interpLin_at _ _ _ _ _ t3).2 (by rw [e]),
+        (interpLin_at _ _ _ _ _ p3).2 (by rw [e']), e, e']
 
 end Taurex.C04
